@@ -426,6 +426,16 @@ func (m *Manager) FlushMemTables() error {
 	m.flushMu.Lock()
 	defer m.flushMu.Unlock()
 
+	// Close sets the flag and then waits for the flush lock: a flush that
+	// gets the lock afterwards (the background goroutine checks the flag
+	// before it calls here, and may be overtaken by Close in between) must
+	// not rotate the log and write tables into a directory that is closed -
+	// and possibly open again in another manager, where the stale tables
+	// would count as the newest data.
+	if m.closed.Load() {
+		return ErrStorageClosed
+	}
+
 	// Track operation
 	m.stats.TrackOperation(stats.OpFlush)
 
